@@ -105,6 +105,24 @@ def c18(ck):
                         seed=ck.seed, exhaustive=False, timeout=3000)
 
 
+def c01(ck):
+    ck.rule = ("structural: every sequence of <= 4 (thorough 5) elements over 19 structural elements (text, 6 block openers and their end "
+               "tags, else / elsif / when, a valid and an invalid output tag, a stray '{{') and every sequence of <= 2 (3) over the full "
+               "83-element alphabet (all stdlib tags and blocks well-formed and malformed, trim-marker forms, wrong arity, unknown filter "
+               "and tag, 20-digit and minimum integers, unterminated quotes, stray delimiters, tab), each rendered joined by '' and by ' ' "
+               "and parsed under 3 configurations; lexical / random: every sequence of <= 2 (3) of 40 lexical tokens inside each of 10 host "
+               "tags, nesting towers of depth 1..32 (closed, unclosed, over-closed) for 8 block kinds, multi-byte text runs of 1..8 "
+               "characters before quote-bearing valid and invalid elements on lines 1..3, random token soups and delete / duplicate / "
+               "transpose mutations of 14 well-formed templates; non-trivial = more than one element / not accepted")
+    ck.assumptions = ["hangs are detected by a 20 s per-batch watchdog in the worker pool, not proved absent",
+                      "inside a comment, unbalanced block openers make the verdict unspecified (totality only), as the property says",
+                      "the empty configuration is checked for totality only"]
+    ck.replay_stage("structure", "MC_C01", "MC_C01_quick.cfg" if ck.tier == "quick" else "MC_C01_thorough.cfg",
+                    tlc_workers=10, harness_workers=8, timeout=3400)
+    args = ["soups", "--cases", "4000", "--lexlen", "2"] if ck.tier == "quick" else ["soups", "--cases", "40000", "--lexlen", "3"]
+    ck.trace_stage("soups", args, "Trace_Calls", "Trace_Calls.cfg", heap="6g", timeout=3400, split=8, boundary="Call")
+
+
 def c03(ck):
     ck.rule = ("text-markup-text triples: left/right text = core x whitespace run (all runs up to the bound over {space, tab, LF, CR}; "
                "cores '', a, e-acute, }, %, quote, emoji) around an output tag or an assign tag with each of the 4 trim-marker "
@@ -243,7 +261,7 @@ def c20(ck):
     ck.trace_stage("realthreads", ["threads", "--runs", runs], "Trace_Threads", "Trace_Threads.cfg", heap="8g", timeout=3000)
 
 
-PROPS = {"C03": c03, "C04": c04, "C06": c06, "C07": c07, "C08": c08, "C09": c09, "C10": c10, "C11": c11, "C13": c13, "C14": c14, "C15": c15, "C16": c16, "C17": c17, "C19": c19, "C20": c20, "C05": c05, "C18": c18}
+PROPS = {"C01": c01, "C03": c03, "C04": c04, "C06": c06, "C07": c07, "C08": c08, "C09": c09, "C10": c10, "C11": c11, "C13": c13, "C14": c14, "C15": c15, "C16": c16, "C17": c17, "C19": c19, "C20": c20, "C05": c05, "C18": c18}
 
 
 def replay_file(prop, path):
